@@ -272,7 +272,7 @@ int main(int argc, char** argv)
                 last = p;
                 last_change = clk::now();
             }
-            else if (clk::now() - last_change > std::chrono::seconds(6))
+            else if (clk::now() - last_change > std::chrono::seconds(12))
             {
                 ev("quiescent").done();
                 vlog::flush();
